@@ -165,7 +165,7 @@ func MakeHash(args []Sexp, typename string, env *Zlisp) (*SexpHash, error) {
 		factory.ReflectName = typename
 		factory.DisplayAs = typename
 
-		GoStructRegistry.RegisterUserdef(factory, false, typename)
+		GoStructRegistry.RegisterScriptdef(factory, typename)
 	}
 
 	return &hash, nil
